@@ -112,3 +112,8 @@ func VerifStreamJob(shardID uint64, replicaID uint64, did uint64, fs vfs.IFS,
 	go func() { done <- j.process() }()
 	return &Sink{j: j}, func() error { return <-done }
 }
+
+// VerifTransportChunks returns the receiver (snapshot chunk tracker) of a
+// Transport, so that a harness driving Transport.SendSnapshot end to end can
+// observe what the receiving side holds.
+func VerifTransportChunks(t *Transport) *Chunk { return t.chunks }
